@@ -6,6 +6,7 @@ toolchain go1.23.5
 
 require (
 	github.com/HobbyOSs/gosk v0.0.0
+	golang.org/x/text v0.21.0
 	pgregory.net/rapid v1.3.0
 )
 
@@ -17,7 +18,6 @@ require (
 	github.com/morikuni/failure v1.1.2 // indirect
 	github.com/samber/lo v1.49.1 // indirect
 	github.com/zeroflucs-given/generics v0.0.0-20250113082619-4aa2a59e718f // indirect
-	golang.org/x/text v0.21.0 // indirect
 )
 
 replace github.com/HobbyOSs/gosk => /repo
